@@ -45,7 +45,7 @@ impl RayCast for HeightField {
                 &seg.a,
                 &seg.scaled_direction(),
             );
-            if s >= 0.0 && t >= 0.0 && t <= 1.0 {
+            if s >= 0.0 && s <= max_time_of_impact && t >= 0.0 && t <= 1.0 {
                 // Cast succeeded on the first element!
                 let n = seg.normal().unwrap().into_inner();
                 let fid = if n.dot(&ray.dir) > 0.0 {
